@@ -9,6 +9,7 @@ import (
 	"errors"
 	"fmt"
 	"io"
+	"strings"
 	"sync"
 
 	rg "google.golang.org/grpc"
@@ -186,7 +187,9 @@ func (cs *clientStream) SendMsg(m any) error {
 	f := h.servers[s.conn.target]
 	h.mu.Unlock()
 	if w := simrt.Cur(); w != nil {
-		w.Logf("rpc s%d call %s: %v", s.ID, s.Method, m)
+		// protobuf's text form varies its spacing from build to build on purpose (detrand): normalised, or a replay
+		// file would match its digest only on the very binary that wrote it
+		w.Logf("rpc s%d call %s: %s", s.ID, s.Method, strings.Join(strings.Fields(fmt.Sprint(m)), " "))
 	}
 	if f == nil {
 		s.finish(status.Error(codes.Unavailable, "simgrpc: no server at "+s.conn.target))
@@ -336,3 +339,8 @@ func (s *Stream) String() string { return fmt.Sprintf("s%d", s.ID) }
 
 // ErrUnavailable is the error a lost connection produces.
 var ErrUnavailable = status.Error(codes.Unavailable, "transport is closing (simulated)")
+
+// Dial is the context-free (deprecated) form of DialContext.
+func Dial(target string, opts ...DialOption) (*ClientConn, error) {
+	return DialContext(context.Background(), target, opts...)
+}
